@@ -23,7 +23,7 @@ MAX_DEATHS_PER_SHARD = 6   # a tree that kills the worker this often is broken; 
 sys.path.insert(0, os.path.join(VERIF, "lib"))
 from props import PROPS  # noqa: E402
 
-FORBIDDEN = re.compile(r"\b(Admitted|admit|Axiom|Axioms|Parameter|Parameters|Conjecture|Conjectures|Hypothesis|Hypotheses|Variable|Variables)\b|Unset Guard|bypass_check|type-in-type|impredicative-set|Admit Obligations|Unset Positivity|Unset Universe|\b(Abort|Undo|Restart)\b|\bProof\s+(?!using\b|with\b)[^.\s]")
+FORBIDDEN = re.compile(r"\b(Admitted|admit|Axiom|Axioms|Parameter|Parameters|Conjecture|Conjectures|Hypothesis|Hypotheses|Variable|Variables)\b|Unset Guard|bypass_check|type-in-type|impredicative-set|Admit Obligations|Unset Positivity|Unset Universe|\b(Abort|Undo|Restart)\b|\bProof\b(?!\s*\.)(?!\s+(?:using|with)\b)|^\s*(?:Goal|Save)\b")
 AXIOM_ALLOW = []  # names of standard-library axioms a theorem may depend on; target: none
 
 
@@ -586,7 +586,10 @@ def check(pid, tier="quick", seed=0, replay=None):
     if replay and not any(l.startswith("CASE ") for l in open(replay)):
         # replay of a broken proof obligation / build / infrastructure report: there is no input to re-run, the
         # reproduction is the check itself
-        print("replay file %s names no input (a proof, build or infrastructure report): re-running the %s check" % (replay, tier))
+        mts = re.search(r"^# tier=(\w+) seed=(\d+)", open(replay).read(), re.M)
+        if mts:
+            tier, seed = mts.group(1), int(mts.group(2))
+        print("replay file %s names no input (a proof, build or infrastructure report): re-running the %s check at seed %s" % (replay, tier, seed))
         replay = None
     t0 = time.time()
     cfg = PROPS[pid]
@@ -757,7 +760,7 @@ def check(pid, tier="quick", seed=0, replay=None):
         violations.append("VIOLATION property=%s replay=%s" % (pid, path))
     elif not (exe and driver):
         path = os.path.join(VERIF, "replays", "%s-build.case" % pid)
-        open(path, "w").write("# the harness or the model driver does not build against the current tree; correspondence for %s cannot be checked\n# %s\n" % (pid, "\n# ".join(log[-5:]).replace("\n", "\n# ")))
+        open(path, "w").write("# tier=%s seed=%s\n" % (tier, seed) + "# the harness or the model driver does not build against the current tree; correspondence for %s cannot be checked\n# %s\n" % (pid, "\n# ".join(log[-5:]).replace("\n", "\n# ")))
         violations.append("VIOLATION property=%s replay=%s no-failing-input-found" % (pid, path))
     elif disagreements or missing:
         cid = sorted(disagreements or missing, key=lambda c: len(cases.get(c, "")))[0]
@@ -766,11 +769,12 @@ def check(pid, tier="quick", seed=0, replay=None):
         violations.append("VIOLATION property=%s replay=%s no-failing-input-found" % (pid, path))
     elif infra:
         path = os.path.join(VERIF, "replays", "%s-infra.case" % pid)
-        open(path, "w").write("# the check could not run as configured; the correspondence for %s is not established on this run\n# %s\n" % (pid, "\n# ".join(infra)))
+        open(path, "w").write("# tier=%s seed=%s\n" % (tier, seed) + "# the check could not run as configured; the correspondence for %s is not established on this run\n# %s\n" % (pid, "\n# ".join(infra)))
         violations.append("VIOLATION property=%s replay=%s no-failing-input-found" % (pid, path))
     elif not proof["proof_ok"]:
         path = os.path.join(VERIF, "replays", "%s-proof.case" % pid)
         with open(path, "w") as f:
+            f.write("# tier=%s seed=%s\n" % (tier, seed))
             f.write("# proof obligations of %s no longer check; the search over %d cases found no failing input\n" % (pid, evaluations))
             for p in proof["problems"]:
                 f.write("# " + p.replace("\n", "\n# ") + "\n")
